@@ -719,6 +719,15 @@ static int run_api(char **tok, int n, char *out, size_t outcap) {
     sx127x_handle_interrupt(device);
     return 0;
   }
+  if (IS("rehome")) {
+    // the application moves the handle (a plain struct it owns) to other storage; the old storage is reused
+    sx127x *n = malloc(sizeof(sx127x));
+    memcpy(n, device, sizeof(sx127x));
+    memset(device, 0xa5, sizeof(sx127x));
+    free(device);
+    device = n;
+    return 0;
+  }
   if (IS("create")) {
     // a fresh handle: the old one is discarded, as after a deep sleep
     sx127x *old = device;
